@@ -31,6 +31,8 @@ LOCK_RELEASE = "gc_lock::GarbageCollectionLock::release"
 
 # ERR idioms accepted on the referenced_blocks path, with the reason
 ERR_ALLOWED = {
+    ("band::band_version_supported", "semver::Version::parse", "unwrap_or"):
+        "conservative: a version string that does not parse counts as unsupported, so Band::open fails with UnsupportedBandVersion",
     ("archive::Archive::list_band_ids", "core::str::<impl str>::parse", "ok"):
         "a directory whose name is not a band id is not a band",
     ("index::IndexRead::hunks_available", "core::str::<impl str>::parse", "ok"):
